@@ -460,3 +460,58 @@ pub fn c13_native_crossover_genes() {
     if !failures.is_empty() { panic!("crossover component violates C13") }
     println!("c13_native_crossover_genes: {} cases checked", cases);
 }
+
+// ------------------------------------------------------------------------------------------------------------------
+// BOUNDED STAND-IN (not a proof) for three KERNEL harnesses that CBMC does not finish within 50 minutes in the thorough tier
+// (translocate at length 4 with both implementations, cycle crossover over all pairs of length-4 permutations, the arithmetic
+// formula with three symbolic floats).  The first two kernels are oblivious to the VALUES they move (only positions / equality
+// matter), so an exhaustive enumeration with distinct concrete tags covers every behaviour at that length.
+// @native-harness
+pub fn c13_native_kernels() {
+    use crate::components::{mutation::functional::{translocate_slice, translocate_slice2}, recombination::functional::{arithmetic_crossover, cycle_crossover}};
+    let mut cases = 0u64;
+    // translocate: all valid (range, index) cases at lengths 1..=6, both implementations
+    for n in 1..=6usize {
+        for start in 0..n { for end in start..=n { for index in 0..n {
+            if index + (end - start) > n { continue }
+            let orig: Vec<u8> = (0..n as u8).map(|i| 10 + i).collect();
+            let (mut a, mut b) = (orig.clone(), orig.clone());
+            translocate_slice(&mut a, start..end, index);
+            translocate_slice2(&mut b, start..end, index);
+            let mut want: Vec<u8> = orig.clone();
+            let chunk: Vec<u8> = want.drain(start..end).collect();
+            for (k, v) in chunk.iter().enumerate() { want.insert(index + k, *v); }
+            if a != b || a != want { eprintln!("COUNTEREXAMPLE translocate n={n} range={start}..{end} index={index}: in-place {a:?}, copying {b:?}, expected {want:?}"); panic!("translocate kernels disagree or misplace the slice") }
+            cases += 1;
+        }}}
+    }
+    // cycle crossover: all pairs of permutations of length 1..=5
+    fn perms(n: usize) -> Vec<Vec<u8>> {
+        fn rec(cur: &mut Vec<u8>, n: usize, out: &mut Vec<Vec<u8>>) { if cur.len() == n { out.push(cur.clone()); return } for v in 0..n as u8 { if !cur.contains(&v) { cur.push(v); rec(cur, n, out); cur.pop(); } } }
+        let mut out = Vec::new(); rec(&mut Vec::new(), n, &mut out); out
+    }
+    for n in 1..=5usize {
+        let ps = perms(n);
+        for p1 in &ps { for p2 in &ps {
+            let [c1, c2] = cycle_crossover(p1, p2);
+            let ok = c1.len() == n && c2.len() == n
+                && { let mut s = c1.clone(); s.sort_unstable(); s == (0..n as u8).collect::<Vec<_>>() } && { let mut s = c2.clone(); s.sort_unstable(); s == (0..n as u8).collect::<Vec<_>>() }
+                && (0..n).all(|j| (c1[j] == p1[j] && c2[j] == p2[j]) || (c1[j] == p2[j] && c2[j] == p1[j]));
+            if !ok { eprintln!("COUNTEREXAMPLE cycle_crossover parents {p1:?} {p2:?}: children {c1:?} {c2:?}"); panic!("cycle crossover: children are not gene-conserving permutations") }
+            cases += 1;
+        }}
+    }
+    // arithmetic crossover: the stated combination, bit-exactly, over a value grid (incl. signed zeros, huge, tiny, infinities)
+    let vals = [0.0, -0.0, 1.0, -1.0, 0.1, 3.5, -2.25, 1.0e300, -1.0e300, 1.0e-300, f64::MAX, f64::MIN_POSITIVE, f64::INFINITY];
+    let alphas = [0.0, 1.0, 0.5, 0.25, 0.1, 0.9999999999999999, 1.0e-17, 2.0, -1.0];
+    for p in vals { for q in vals { for al in alphas {
+        let [c1, c2] = arithmetic_crossover(&[p, q], &[q, p], &[al, al]);
+        let (e1, e2) = (al * p + (1.0 - al) * q, al * q + (1.0 - al) * p);
+        let same = |a: f64, b: f64| a.to_bits() == b.to_bits() || (a.is_nan() && b.is_nan());
+        if c1.len() != 2 || c2.len() != 2 || !same(c1[0], e1) || !same(c2[0], e2) || !same(c1[1], e2) || !same(c2[1], e1) {
+            eprintln!("COUNTEREXAMPLE arithmetic_crossover p={p} q={q} alpha={al}: children {c1:?} {c2:?}, expected [{e1}, {e2}] [{e2}, {e1}]"); panic!("arithmetic crossover is not the stated combination")
+        }
+        cases += 1;
+    }}}
+    println!("c13_native_kernels: {} kernel cases checked", cases);
+}
